@@ -572,7 +572,10 @@ func (refImpl) Exec(h *vh.H, op string) string {
 		h.Nontrivial(op)
 	} else {
 		h.Count("ref.captured")
-		sig := "refname-shadowed"
+		sig := "refname-shadowed:same-package"
+		if cross {
+			sig = "refname-shadowed:cross-package"
+		}
 		if name == "" {
 			sig = "refname-empty"
 		}
@@ -611,7 +614,9 @@ func (ordImpl) Gen(h *vh.H, i int) string {
 	case 0:
 		return "less " + elemStr(genElem(h, h.Chance(2, 3))) + " " + elemStr(genElem(h, h.Chance(2, 3)))
 	case 1:
-		return fmt.Sprintf("locless %d,%d,%d %d,%d,%d", h.Rng.IntN(2), h.Rng.IntN(4), h.Rng.IntN(4), h.Rng.IntN(2), h.Rng.IntN(4), h.Rng.IntN(4))
+		names := []string{"a.b", "a.c", "a.b.c", "b", "j5.ext.v1.field", "buf.validate.field"}
+		return fmt.Sprintf("locless %d,%d,%d,%s %d,%d,%d,%s", h.Rng.IntN(2), h.Rng.IntN(4), h.Rng.IntN(3), vh.Hex([]byte(vh.Pick(h, names))),
+			h.Rng.IntN(2), h.Rng.IntN(4), h.Rng.IntN(3), vh.Hex([]byte(vh.Pick(h, names))))
 	default:
 		n := 1 + h.Rng.IntN(9)
 		mode := h.Rng.IntN(5) // 0: no lines, 1-3: all lines, 4: mixed
@@ -663,13 +668,27 @@ func (ordImpl) Exec(h *vh.H, op string) string {
 		if len(f) != 3 {
 			return "bad-op"
 		}
-		a, ok1 := parseElemGo(f[1])
-		b, ok2 := parseElemGo(f[2])
+		parse := func(x string) (has bool, line int32, idx int, name string, ok bool) {
+			p := strings.Split(x, ",")
+			if len(p) != 4 {
+				return
+			}
+			a, e1 := strconv.Atoi(p[0])
+			b, e2 := strconv.Atoi(p[1])
+			c, e3 := strconv.Atoi(p[2])
+			n, okh := vh.UnHex(p[3])
+			if e1 != nil || e2 != nil || e3 != nil || !okh {
+				return
+			}
+			return a != 0, int32(b), c, string(n), true
+		}
+		ah, al, ai, an, ok1 := parse(f[1])
+		bh, bl, bi, bn, ok2 := parse(f[2])
 		if !ok1 || !ok2 {
 			return "bad-op"
 		}
 		h.Nontrivial(op)
-		return strconv.FormatBool(optionreflect.VerifLocLess(a.TypeOrder != 0, int32(a.StartLine), a.Index, b.TypeOrder != 0, int32(b.StartLine), b.Index))
+		return strconv.FormatBool(optionreflect.VerifLocLess(ah, al, ai, an, bh, bl, bi, bn))
 	case "sort":
 		var es []protoprint.VerifElem
 		for k, s := range f[1:] {
